@@ -1149,8 +1149,26 @@ func (x *Exec) sliceOp(fr *frame, i *ssa.Slice) Value {
 		if lo < 0 || hi < lo || hi > n || mx > n || mx < hi {
 			x.goPanicf("slice bounds out of range [%d:%d] with length %d", lo, hi, n)
 		}
-		obj := &ArrayObj{E: make([]Value, n)}
-		copy(obj.E, av.E)
+		// the slice shares its storage with a fresh copy of the array that replaces the old
+		// value behind the pointer: writes through the slice (copy(e.buf[:], src), append into
+		// spare capacity) are seen through the pointer; other holders of the old array value
+		// are not affected. A later element write through the pointer copies again.
+		nav := &ArrayVal{E: make([]Value, n)}
+		copy(nav.E, av.E)
+		stored := true
+		func() {
+			defer func() {
+				if recover() != nil {
+					stored = false // frozen (init-time) storage: fall back to a private copy
+				}
+			}()
+			r.Store(nav)
+		}()
+		obj := &ArrayObj{E: nav.E}
+		if !stored {
+			obj = &ArrayObj{E: make([]Value, n)}
+			copy(obj.E, av.E)
+		}
 		return &SliceVal{A: obj, Off: lo, Len: hi - lo, Cap: mx - lo}
 	}
 	panic(unsupported(fmt.Sprintf("slice of %T", v)))
